@@ -37,7 +37,11 @@ PLAIN_PATTERNS = ["GGJ", "ZZTOP", "QVINJ", "SECRETZ"]
 REGEX_PATTERNS = [("QV[[:upper:]]+NJ", "QV[A-Z]+NJ", ["QVXNJ", "QVZZINJ"]),
                   ("ZZ[0-9]+TOP", "ZZ[0-9]+TOP", ["ZZ4TOP", "ZZ2024TOP"]),
                   ("GG[[:digit:]]{2}J", "GG[0-9]{2}J", ["GG42J"]),
-                  ("^WIPE[[:space:]]", "^WIPE\\s", ["WIPE "])]
+                  ("^WIPE[[:space:]]", "^WIPE\\s", ["WIPE "]),
+                  # capturing groups and numbered back-references (each pattern is a regular expression of its own)
+                  ("(ZAPI|ZSEC)KEY", "(ZAPI|ZSEC)KEY", ["ZAPIKEY", "ZSECKEY"]),
+                  ("UU=([G-Z]+) OO=\\1Z", "UU=([G-Z]+) OO=\\1Z", ["UU=QQ OO=QQZ", "UU=JIV OO=JIVZ"]),
+                  ("(NN)+([[:upper:]])\\2", "(NN)+([A-Z])\\2", ["NNNNXX", "NNZZ"])]
 ALL_OBF = ["hostname", "ip", "ipv6", "keyword", "mac", "password"]
 WORD = "abcdefghijklmnopqrstuvwxyzABCDEFGHIJKLMNOPQRSTUVWXYZ0123456789_"
 
@@ -129,6 +133,9 @@ def _gen_case(rp, rf, rk, tier, flavour):
         hosts.append(b)
         suffix_pair = [a, b]
     ips = [ipv4(rp) for _ in range(rp.randint(0, 4))]
+    if rp.random() < 0.08:
+        # a host with many addresses: the substitute counter crosses 10.230.230.9 -> .10 (and, rarely, a whole octet)
+        ips = [ipv4(rp) for _ in range(rp.choice([11, 12, 15, 25, 40]))]
     prefix_pair = None
     if ips and rp.random() < 0.2:
         # an address that is a textual prefix of another one
